@@ -75,7 +75,28 @@ def main():
             for pid, a in res["alarms"].items():
                 for l in a["first"]:
                     print("      %s: %s" % (pid, l[:300]), flush=True)
-    json.dump(results, open(os.path.join(root, "RESULTS.json"), "w"), indent=1)
+    if only or tier != "quick" or checks != ALL:
+        return
+    lines = ["# False-alarm campaign: property-preserving changes", "",
+             "Changes that keep all 20 properties true, written by independent sub-agents that saw only the property texts and a scratch",
+             "worktree (A-E: first wave by module; L legacy readers, I input/output layer, X validation and errors, P performance and API:",
+             "second wave by theme) and by hand (M): refactorings, correct caches, reworded messages, other exception classes where the",
+             "property allows several, earlier validation, extensions (new image type/format, architecture, release type, compose type,",
+             "optional field), python-2 removal, reordered independent steps, atomic writes, pathlib support, retries.",
+             "`tools/run_benign.py /verif/benign` applies each to a scratch worktree of /repo HEAD, runs the 90 baseline tests and ALL 20",
+             "checks (quick tier).  Any non-zero exit is a false alarm to be repaired in the check (DESIGN.md sections 13 and 15a).", "",
+             "| change | baseline tests | checks raising an alarm | what it is |", "|---|---|---|---|"]
+    for r in sorted(results, key=lambda r: r["patch"]):
+        d = os.path.dirname(r["patch"])
+        t = ""
+        if os.path.exists(d + "/notes.md"):
+            t = open(d + "/notes.md").readline().strip().lstrip("# ").strip()
+        lines.append("| %s | %s | %s | %s |" % (os.path.basename(d), r.get("tests") or "patch does not apply", ", ".join(r["alarms"]) or "none",
+                                               t.replace("|", "/")[:150]))
+    n = sum(1 for r in results if not r["alarms"] and r.get("applies"))
+    lines += ["", "%d changes, %d without any alarm." % (len(results), n)]
+    open(os.path.join(root, "REPORT.md"), "w").write("\n".join(lines) + "\n")
+    print(lines[-1])
 
 
 if __name__ == "__main__":
